@@ -19,6 +19,11 @@ use std::task::{Context, Poll, Wake, Waker};
 
 use tokio::io::{AsyncRead, AsyncWrite, ReadBuf};
 
+thread_local! {
+    /// true while the code under test is being polled (its panics are caught and attributed)
+    pub static IN_POLL: std::cell::Cell<bool> = const { std::cell::Cell::new(false) };
+}
+
 pub struct Flag(AtomicBool);
 
 impl Wake for Flag {
@@ -75,9 +80,11 @@ impl<T> Task<T> {
         let mut cx = Context::from_waker(&waker);
         self.polls += 1;
         let fut = self.fut.as_mut().unwrap();
+        IN_POLL.with(|f| f.set(true));
         let res = std::panic::catch_unwind(std::panic::AssertUnwindSafe(|| {
             fut.as_mut().poll(&mut cx)
         }));
+        IN_POLL.with(|f| f.set(false));
         match res {
             Ok(Poll::Ready(x)) => {
                 self.output = Some(x);
